@@ -20,24 +20,24 @@ type retPoint struct {
 }
 
 type Frame struct {
-	e      *Enc
-	fn     *ssa.Function
-	prefix string
-	depth  int
-	top    bool
-	vals   map[ssa.Value]string
-	places map[ssa.Value]*Place
-	tuples map[ssa.Value][]string
-	edge   map[[2]int]string
-	exit   map[*ssa.BasicBlock]*State
-	breach map[*ssa.BasicBlock]string
-	rets   []retPoint
-	panics []string // reach conditions of panicking paths
-	defers []*ssa.Defer
-	st     *State // current state while walking a block
-	reach  string // current reach while walking a block
-	back   map[[2]int]bool
-	hdrOrd map[*ssa.BasicBlock]int
+	e       *Enc
+	fn      *ssa.Function
+	prefix  string
+	depth   int
+	top     bool
+	vals    map[ssa.Value]string
+	places  map[ssa.Value]*Place
+	tuples  map[ssa.Value][]string
+	edge    map[[2]int]string
+	exit    map[*ssa.BasicBlock]*State
+	breach  map[*ssa.BasicBlock]string
+	rets    []retPoint
+	panics  []string // reach conditions of panicking paths
+	defers  []*ssa.Defer
+	st      *State // current state while walking a block
+	reach   string // current reach while walking a block
+	back    map[[2]int]bool
+	hdrOrd  map[*ssa.BasicBlock]int
 	entrySt *State
 	params  map[string]CVal // contract-visible names at entry
 	loopPre map[*ssa.BasicBlock]*State
